@@ -25,7 +25,7 @@ theorem others_epollUpdate (d : Daemon) (i : Id) : Others i d (epollUpdate d i) 
   unfold epollUpdate
   dsimp only
   split
-  · refine ⟨rfl, rfl, rfl, rfl, ?_⟩; intro j hj; simp [hj]
+  · refine ⟨rfl, rfl, rfl, ⟨rfl, rfl⟩, ?_⟩; intro j hj; simp [hj]
   · exact Others.refl i d
 
 theorem inv_idleCheck {d : Daemon} (h : Inv d) (i : Id) (hi : i ∈ d.conns) : Inv (idleCheck d i).1 := by
@@ -101,13 +101,14 @@ theorem others_handleIdle (d : Daemon) (i : Id) : Others i d (handleIdle d i).1 
 
 /-! ### reading client data -/
 
-theorem inv_readData {d : Daemon} (h : Inv d) (i : Id) (hi : i ∈ d.conns) : Inv (readData d i).1 := by
+theorem inv_readData {v : Variant} (hv : v.actSorted = true) {d : Daemon} (h : Inv d) (i : Id) (hi : i ∈ d.conns) :
+    Inv (readData v d i).1 := by
   unfold readData
   dsimp only
   have h1 : Inv (d.set i { (d.c i) with unread := false, readReady := false }) :=
     inv_set_iness h i _ rfl rfl rfl
-  have h2 := inv_updateLastActivity h1 i (by simpa using hi)
-  have hi2 : i ∈ (updateLastActivity (d.set i { (d.c i) with unread := false, readReady := false }) i).conns := by
+  have h2 := inv_updateLastActivity hv h1 i (by simpa using hi)
+  have hi2 : i ∈ (updateLastActivity v (d.set i { (d.c i) with unread := false, readReady := false }) i).conns := by
     rw [updateLastActivity_conns]; simpa using hi
   split
   · split
@@ -117,11 +118,11 @@ theorem inv_readData {d : Daemon} (h : Inv d) (i : Id) (hi : i ∈ d.conns) : In
     · exact inv_set_iness h2 i _ rfl rfl rfl
   · exact h2
 
-theorem others_readData (d : Daemon) (i : Id) : Others i d (readData d i).1 := by
+theorem others_readData (v : Variant) (d : Daemon) (i : Id) : Others i d (readData v d i).1 := by
   unfold readData
   dsimp only
   have o1 := others_set i d { (d.c i) with unread := false, readReady := false }
-  have o2 := Others.trans o1 (others_updateLastActivity _ i)
+  have o2 := Others.trans o1 (others_updateLastActivity v _ i)
   split
   · split
     · exact Others.trans (Others.trans o2 (others_set i _ _)) (others_internalSuspend _ i)
@@ -137,26 +138,26 @@ theorem internalSuspend_post (d : Daemon) (i : Id) (hi : i ∈ d.conns) :
   repeat' split
   all_goals simp [hi]
 
-theorem updateLastActivity_closed (d : Daemon) (i : Id) :
-    ((updateLastActivity d i).c i).closed = (d.c i).closed := by
+theorem updateLastActivity_closed (v : Variant) (d : Daemon) (i : Id) :
+    ((updateLastActivity v d i).c i).closed = (d.c i).closed := by
   unfold updateLastActivity Daemon.remNormal
   dsimp only
   repeat' split
   all_goals simp
 
-theorem readData_post {d : Daemon} (i : Id) (hi : i ∈ d.conns) (hc : (d.c i).closed = false) :
-    IdleOk (readData d i).1 i := by
+theorem readData_post (v : Variant) {d : Daemon} (i : Id) (hi : i ∈ d.conns) (hc : (d.c i).closed = false) :
+    IdleOk (readData v d i).1 i := by
   unfold readData
   dsimp only
-  have hi2 : i ∈ (updateLastActivity (d.set i { (d.c i) with unread := false, readReady := false }) i).conns := by
+  have hi2 : i ∈ (updateLastActivity v (d.set i { (d.c i) with unread := false, readReady := false }) i).conns := by
     rw [updateLastActivity_conns]; simpa using hi
-  have hc2 : ((updateLastActivity (d.set i { (d.c i) with unread := false, readReady := false }) i).c i).closed
+  have hc2 : ((updateLastActivity v (d.set i { (d.c i) with unread := false, readReady := false }) i).c i).closed
       = false := by rw [updateLastActivity_closed]; simpa using hc
   split
   · split
     · have p := internalSuspend_post
-        ((updateLastActivity (d.set i { (d.c i) with unread := false, readReady := false }) i).set i
-          { ((updateLastActivity (d.set i { (d.c i) with unread := false, readReady := false }) i).c i) with
+        ((updateLastActivity v (d.set i { (d.c i) with unread := false, readReady := false }) i).set i
+          { ((updateLastActivity v (d.set i { (d.c i) with unread := false, readReady := false }) i).c i) with
             aware := true, wantSusp := false }) i (by simpa using hi2)
       rcases p.1 with q | q
       · exact Or.inl q
@@ -167,45 +168,45 @@ theorem readData_post {d : Daemon} (i : Id) (hi : i ∈ d.conns) (hc : (d.c i).c
 
 /-! ### call_handlers in the select loop, and the loop -/
 
-theorem inv_callHandlersSel {d : Daemon} (h : Inv d) (i : Id) (r : Bool) (hi : i ∈ d.conns) :
-    Inv (callHandlersSel d i r).1 := by
+theorem inv_callHandlersSel {v : Variant} (hv : v.actSorted = true) {d : Daemon} (h : Inv d) (i : Id) (r : Bool)
+    (hi : i ∈ d.conns) : Inv (callHandlersSel v d i r).1 := by
   unfold callHandlersSel seq2
   dsimp only
   split
   · exact inv_handleIdle h i (Or.inl hi)
   · rename_i hc
     split
-    · exact inv_handleIdle (inv_readData h i hi) i (readData_post i hi (by simpa using hc))
+    · exact inv_handleIdle (inv_readData hv h i hi) i (readData_post v i hi (by simpa using hc))
     · split
       · exact inv_handleIdle (inv_closeOther h i _) i (Or.inl (by simpa [closeOther] using hi))
       · exact inv_handleIdle h i (Or.inl hi)
 
-theorem others_callHandlersSel (d : Daemon) (i : Id) (r : Bool) : Others i d (callHandlersSel d i r).1 := by
+theorem others_callHandlersSel (v : Variant) (d : Daemon) (i : Id) (r : Bool) : Others i d (callHandlersSel v d i r).1 := by
   unfold callHandlersSel seq2
   dsimp only
   split
   · exact others_handleIdle d i
   · split
-    · exact Others.trans (others_readData d i) (others_handleIdle _ i)
+    · exact Others.trans (others_readData v d i) (others_handleIdle _ i)
     · split
       · exact Others.trans (others_closeOther d i _) (others_handleIdle _ i)
       · exact others_handleIdle d i
 
-theorem inv_travSel (v : Variant) (rs : List Id) : ∀ (l : List Id) (d : Daemon), Inv d → l.Nodup →
+theorem inv_travSel (v : Variant) (hv : v.actSorted = true) (rs : List Id) : ∀ (l : List Id) (d : Daemon), Inv d → l.Nodup →
     (∀ i, i ∈ l → i ∈ d.conns) → Inv (travSel v rs l d).1
   | [], d, h, _, _ => by simpa [travSel] using h
   | i :: rest, d, h, hnd, hm => by
     unfold travSel
     dsimp only
     have hi : i ∈ d.conns := hm i (List.mem_cons_self ..)
-    have h1 := inv_callHandlersSel h i (rs.contains i) hi
+    have h1 := inv_callHandlersSel hv h i (rs.contains i) hi
     split
     · exact h1
     · unfold seq2
       dsimp only
-      have o := others_callHandlersSel d i (rs.contains i)
+      have o := others_callHandlersSel v d i (rs.contains i)
       have hnd' := List.nodup_cons.1 hnd
-      refine inv_travSel v rs rest _ h1 hnd'.2 ?_
+      refine inv_travSel v hv rs rest _ h1 hnd'.2 ?_
       intro j hj
       have hji : j ≠ i := fun e => hnd'.1 (e ▸ hj)
       exact ((o.2.2.2.2 j hji).1).2 (hm j (List.mem_cons_of_mem _ hj))
@@ -265,7 +266,7 @@ theorem inv_processNew {v : Variant} (hv : Fixed v) {d : Daemon} (h : Inv d) : I
     exact ⟨a.1, a.2.1, a.2.2, by simp, h.usedAll i (Or.inl hi'), b.1, b.2⟩
   · exact h
 
-theorem inv_resumeSuspended {d : Daemon} (h : Inv d) : Inv (resumeSuspended d) := by
+theorem inv_resumeSuspended {v : Variant} (hv : v.actSorted = true) {d : Daemon} (h : Inv d) : Inv (resumeSuspended v d) := by
   unfold resumeSuspended
   dsimp only
   have h0 : Inv { d with resuming := false } := by
@@ -275,8 +276,8 @@ theorem inv_resumeSuspended {d : Daemon} (h : Inv d) : Inv (resumeSuspended d) :
       | exact h.ndNew | exact h.ndClean | exact h.ndEready | exact h.connsIff | exact h.normalT | exact h.manualT
       | exact h.connsS | exact h.suspS | exact h.newT | exact h.disjNew | exact h.disjClean | exact h.laLe
       | exact h.usedAll | exact h.ready | exact h.nonEpoll | exact h.sorted | exact h.tmoB | exact h.dtmoB
-  refine foldl_inv (P := fun d i => i ∈ d.susp) (fun d i hd hp => inv_resumeOne hd i hp)
-    (fun d i j _ _ hji hp => ((others_resumeOne d i).2.2.2.2 j hji).2.1.2 hp) _ _ h0 ?_ ?_
+  refine foldl_inv (P := fun d i => i ∈ d.susp) (fun d i hd hp => inv_resumeOne hv hd i hp)
+    (fun d i j _ _ hji hp => ((others_resumeOne v d i).2.2.2.2 j hji).2.1.2 hp) _ _ h0 ?_ ?_
   · split
     · exact nodup_reverse' h.ndSusp
     · exact List.nodup_nil
@@ -344,11 +345,11 @@ theorem inv_flag {d : Daemon} (h : Inv d) (b : Bool) : Inv { d with dataPending 
 theorem inv_roundSelect {v : Variant} (hv : Fixed v) {d : Daemon} (h : Inv d) : Inv (roundSelect v d).1 := by
   unfold roundSelect seq2
   dsimp only
-  have h1 : Inv (if d.cfg.allowSuspend then resumeSuspended d else d) := by
-    split; exact inv_resumeSuspended h; exact h
+  have h1 : Inv (if d.cfg.allowSuspend then resumeSuspended v d else d) := by
+    split; exact inv_resumeSuspended hv.2.2.2.2 h; exact h
   have h2 := inv_processNew hv (inv_flag h1 false)
   apply inv_cleanupAll
-  apply inv_travSel
+  apply inv_travSel _ hv.2.2.2.2
   · exact h2
   · exact nodup_reverse' h2.ndConns
   · intro i hi; exact List.mem_reverse.1 hi
@@ -476,8 +477,8 @@ theorem inv_eready_shrink {d : Daemon} (h : Inv d) (i : Id) : Inv { d with eread
   case hc => intro j; exact ⟨rfl, rfl, rfl⟩
   all_goals rfl
 
-theorem inv_callHandlersE0 {d : Daemon} (h : Inv d) (i : Id) (hi : i ∈ d.conns ∨ i ∈ d.cleanup) :
-    Inv (callHandlersE0 d i).1 := by
+theorem inv_callHandlersE0 {v : Variant} (hv : v.actSorted = true) {d : Daemon} (h : Inv d) (i : Id)
+    (hi : i ∈ d.conns ∨ i ∈ d.cleanup) : Inv (callHandlersE0 v d i).1 := by
   unfold callHandlersE0
   dsimp only
   split
@@ -493,7 +494,7 @@ theorem inv_callHandlersE0 {d : Daemon} (h : Inv d) (i : Id) (hi : i ∈ d.conns
       · rename_i hc
         split
         · split
-          · exact inv_handleIdle (inv_readData h i hic) i (readData_post i hic (by simpa using hc))
+          · exact inv_handleIdle (inv_readData hv h i hic) i (readData_post v i hic (by simpa using hc))
           · split
             · exact inv_handleIdle (inv_closeOther h i _) i (Or.inl (by simpa [closeOther] using hic))
             · apply inv_handleIdle
@@ -501,7 +502,7 @@ theorem inv_callHandlersE0 {d : Daemon} (h : Inv d) (i : Id) (hi : i ∈ d.conns
               · exact Or.inl (by simpa using hic)
         · exact inv_handleIdle h i (Or.inl hic)
 
-theorem others_callHandlersE0 (d : Daemon) (i : Id) : Others i d (callHandlersE0 d i).1 := by
+theorem others_callHandlersE0 (v : Variant) (d : Daemon) (i : Id) : Others i d (callHandlersE0 v d i).1 := by
   unfold callHandlersE0 seq2
   dsimp only
   repeat' split
@@ -509,38 +510,38 @@ theorem others_callHandlersE0 (d : Daemon) (i : Id) : Others i d (callHandlersE0
     | exact Others.refl i d
     | exact others_handleIdle d i
     | exact Others.trans (others_closeOther d i _) (others_handleIdle _ i)
-    | exact Others.trans (others_readData d i) (others_handleIdle _ i)
+    | exact Others.trans (others_readData v d i) (others_handleIdle _ i)
     | exact Others.trans (others_set i d _) (others_handleIdle _ i)
 
-theorem inv_callHandlersE {d : Daemon} (h : Inv d) (i : Id) (hi : i ∈ d.conns ∨ i ∈ d.cleanup) :
-    Inv (callHandlersE d i).1 := by
+theorem inv_callHandlersE {v : Variant} (hv : v.actSorted = true) {d : Daemon} (h : Inv d) (i : Id)
+    (hi : i ∈ d.conns ∨ i ∈ d.cleanup) : Inv (callHandlersE v d i).1 := by
   unfold callHandlersE
   dsimp only
   split
-  · exact inv_eready_shrink (inv_callHandlersE0 h i hi) i
-  · exact inv_callHandlersE0 h i hi
+  · exact inv_eready_shrink (inv_callHandlersE0 hv h i hi) i
+  · exact inv_callHandlersE0 hv h i hi
 
-theorem others_callHandlersE (d : Daemon) (i : Id) : Others i d (callHandlersE d i).1 := by
+theorem others_callHandlersE (v : Variant) (d : Daemon) (i : Id) : Others i d (callHandlersE v d i).1 := by
   unfold callHandlersE
   dsimp only
   split
-  · have o := others_callHandlersE0 d i
-    refine Others.trans o ⟨rfl, rfl, rfl, rfl, ?_⟩
+  · have o := others_callHandlersE0 v d i
+    refine Others.trans o ⟨rfl, rfl, rfl, ⟨rfl, rfl⟩, ?_⟩
     intro j _; exact ⟨Iff.rfl, Iff.rfl, Iff.rfl, rfl⟩
-  · exact others_callHandlersE0 d i
+  · exact others_callHandlersE0 v d i
 
-theorem inv_procEready : ∀ (l : List Id) (d : Daemon), Inv d → l.Nodup →
-    (∀ i, i ∈ l → i ∈ d.conns ∨ i ∈ d.cleanup) → Inv (procEready l d).1
+theorem inv_procEready (v : Variant) (hv : v.actSorted = true) : ∀ (l : List Id) (d : Daemon), Inv d → l.Nodup →
+    (∀ i, i ∈ l → i ∈ d.conns ∨ i ∈ d.cleanup) → Inv (procEready v l d).1
   | [], d, h, _, _ => by simpa [procEready] using h
   | i :: rest, d, h, hnd, hm => by
     unfold procEready seq2
     dsimp only
     have hi := hm i (List.mem_cons_self ..)
     have hnd' := List.nodup_cons.1 hnd
-    refine inv_procEready rest _ (inv_callHandlersE h i hi) hnd'.2 ?_
+    refine inv_procEready v hv rest _ (inv_callHandlersE hv h i hi) hnd'.2 ?_
     intro j hj
     have hji : j ≠ i := fun e => hnd'.1 (e ▸ hj)
-    have o := (others_callHandlersE d i).2.2.2.2 j hji
+    have o := (others_callHandlersE v d i).2.2.2.2 j hji
     rcases hm j (List.mem_cons_of_mem _ hj) with x | x
     · exact Or.inl (o.1.2 x)
     · exact Or.inr (o.2.2.1.2 x)
@@ -548,14 +549,14 @@ theorem inv_procEready : ∀ (l : List Id) (d : Daemon), Inv d → l.Nodup →
 theorem inv_roundEpoll {v : Variant} (hv : Fixed v) {d : Daemon} (h : Inv d) : Inv (roundEpoll v d).1 := by
   unfold roundEpoll seq2
   dsimp only
-  have h1 : Inv (if d.cfg.allowSuspend then resumeSuspended d else d) := by
-    split; exact inv_resumeSuspended h; exact h
+  have h1 : Inv (if d.cfg.allowSuspend then resumeSuspended v d else d) := by
+    split; exact inv_resumeSuspended hv.2.2.2.2 h; exact h
   have h2 := inv_processNew hv (inv_epollWait (inv_flag h1 false))
   have h3 := inv_scanManual _ _ h2 (nodup_reverse' h2.ndManual)
     (fun i hi => (h2.connsIff i).2 (Or.inr (List.mem_reverse.1 hi)))
   have h4 := inv_scanNormal _ _ h3 (nodup_reverse' h3.ndNormal)
     (fun i hi => (h3.connsIff i).2 (Or.inl (List.mem_reverse.1 hi)))
-  have h5 := inv_procEready _ _ h4 (nodup_reverse' h4.ndEready)
+  have h5 := inv_procEready v hv.2.2.2.2 _ _ h4 (nodup_reverse' h4.ndEready)
     (fun i hi => h4.ready i (Or.inl (List.mem_reverse.1 hi)))
   exact inv_cleanupAll h5
 
